@@ -19,7 +19,9 @@ META = {
     "level_text": "Machine-checked Coq theorems, for every finite mesh graph, every start/target choice and every "
                   "non-negative integer (= scaled dyadic) weight assignment, about an executable model of shortest_path, "
                   "shortest_path_to_vertex_set and shortest_path_to_border: the returned list is an edge path from the "
-                  "start to the target whose weight is the minimum over all walks, the set query returns a nearest member "
+                  "start to the target whose weight is the minimum over all walks - for EACH requested target connected to the "
+                  "start, the others getting the empty list (any collection of vertices; a single target as int or numpy "
+                  "integer) -, the set query returns a nearest member "
                   "and a shortest path to it (also for one-element sets and with the start inside the set), the loop "
                   "bound of the model is never hit; proved against the contract 'pop returns a minimum-key entry and "
                   "removes exactly it' under a representation invariant, which is proved both for a plain list queue and "
@@ -31,7 +33,11 @@ META = {
                   "driver canonicalisation, mapping of dyadic float weights to integers by a common scale); that "
                   "mesh.connectivity.vertex_to_vertices agrees with mesh.edges (checked on every case, proved in C01/C03); "
                   "CPython's heapq is modelled from Lib/heapq.py (proofs copied from the C20 development); dict/list "
-                  "semantics assumed. Floating-point round-off is outside the theorems: the 'length' mode is exercised on lattice meshes "
+                  "semantics assumed. Proved vs tested: the theorems are about the model; the code's loops are tied to it by the "
+                  "correspondence batches only; the Euclidean mode is proved for integer lengths (lattice meshes, "
+                  "perfect-square squared lengths) and for any fixed non-negative dyadic length table. A set query none of "
+                  "whose members is connected, a start that is not a vertex (incl. the sink id -1) and target ids that are "
+                  "not vertices are outside the property (modelled and compared, not specified). Floating-point round-off is outside the theorems: the 'length' mode is exercised on lattice meshes "
                   "whose edge lengths are exact integers, and on general coordinates through the exact dyadic values of "
                   "the binary64 lengths with a 1e-9 relative tolerance on path weights. The exported path polyline and "
                   "the absence of side effects on other queues are only tested by the oracle.",
@@ -81,6 +87,7 @@ def gen_polyline(rng, exact):
     cand = [(a, b) for a in range(n) for b in range(a + 1, n) if (not exact) or is_square(d2(V[a], V[b]))]
     rng.shuffle(cand)
     dens = rng.choice([0.15, 0.3, 0.5, 0.8])
+    join = rng.choice([0.9, 0.9, 0.6, 0.3])      # below 0.9: several components / isolated vertices are likely
     E = []
     # a random spanning structure first (so that most pairs are connected), then extra edges
     comp = list(range(n))
@@ -91,7 +98,7 @@ def gen_polyline(rng, exact):
         return x
     for a, b in cand:
         ra, rb = find(a), find(b)
-        if ra != rb and rng.random() < 0.9:
+        if ra != rb and rng.random() < join:
             comp[ra] = rb
             E.append([a, b] if rng.random() < 0.5 else [b, a])
         elif rng.random() < dens:
@@ -284,8 +291,17 @@ def gen_queries(rng, info, k):
         r = rng.random()
         export = rng.random() < 0.15
         pick = lambda m: [rng.choice(R) for _ in range(m)]
+        others_all = [v for v in range(n) if v not in R]
+        if others_all and rng.random() < 0.3:
+            # several components: every connected pair keeps its answer when other requested targets are unconnected
+            t = pick(rng.randint(1, 3)) + [rng.choice(others_all) for _ in range(rng.randint(1, 2))]
+            rng.shuffle(t)
+            q = {"f": rng.choice(["sp", "sp", "set"]), "start": s,
+                 "targets": {"form": rng.choice(["list", "set", "nplist", "tuple"]), "v": t}, "export": export}
+            qs.append(q)
+            continue
         if r < 0.14:
-            q = {"f": "sp", "start": s, "targets": {"form": "int", "v": rng.choice(R)}}
+            q = {"f": "sp", "start": s, "targets": {"form": rng.choice(["int", "npint"]), "v": rng.choice(R)}}
         elif r < 0.32:
             q = {"f": "sp", "start": s, "targets": {"form": rng.choice(["list", "set", "tuple", "nplist"]), "v": pick(rng.randint(1, 5))}}
         elif r < 0.38:
@@ -302,17 +318,31 @@ def gen_queries(rng, info, k):
             q = {"f": "set", "start": s, "targets": {"form": rng.choice(["list", "set"]), "v": t}}
         elif r < 0.81:
             q = {"f": "set", "start": s, "targets": {"form": "list", "v": [s]}}
-        elif r < 0.84:
-            # malformed stream: no target / a target in another component / far-away members mixed with reachable ones
+        elif r < 0.86:
+            # mixed reachability (each connected pair keeps its answer) and the malformed stream
             others = [v for v in range(n) if v not in R]
             w = rng.random()
-            if w < 0.4 or not others:
+            if others and w < 0.45:
+                t = pick(rng.randint(1, 3)) + [rng.choice(others) for _ in range(rng.randint(1, 2))]
+                rng.shuffle(t)
+                q = {"f": "sp", "start": s, "targets": {"form": rng.choice(["list", "set", "nplist"]), "v": t}}
+            elif others and w < 0.65:
+                t = pick(rng.randint(1, 2)) + [rng.choice(others)]
+                rng.shuffle(t)
+                q = {"f": "set", "start": s, "targets": {"form": rng.choice(["list", "set"]), "v": t}}
+            elif others and w < 0.75:
+                q = {"f": "sp", "start": s, "targets": {"form": rng.choice(["list", "int", "npint"]), "v": rng.choice(others)}}
+                if q["targets"]["form"] == "list":
+                    q["targets"]["v"] = [q["targets"]["v"]]
+            elif w < 0.75:
+                q = {"f": "sp", "start": s, "targets": {"form": rng.choice(["list", "set", "tuple"]), "v": pick(rng.randint(2, 6))}}
+            elif w < 0.85:
                 q = {"f": "set", "start": s, "targets": {"form": rng.choice(["list", "set"]), "v": []}}
-            elif w < 0.7:
-                q = {"f": "set", "start": s, "targets": {"form": "list", "v": pick(1) + [rng.choice(others)]}}
+            elif w < 0.93:
+                q = {"f": "set", "start": -1, "targets": {"form": "list", "v": pick(rng.randint(1, 3))}}   # the sink id as start
             else:
-                q = {"f": "sp", "start": s, "targets": {"form": "list", "v": [rng.choice(others)]}}
-        elif border is not None:
+                q = {"f": "sp", "start": s, "targets": {"form": "list", "v": pick(1) + [n + rng.randint(0, 3)]}}  # not a vertex
+        elif border is not None and (border or rng.random() < 0.15):
             q = {"f": "border", "start": s}
         else:
             q = {"f": "set", "start": s, "targets": {"form": "list", "v": pick(rng.randint(2, 4))}}
@@ -324,7 +354,7 @@ def gen_queries(rng, info, k):
 # ---------------------------------------------------------------------- what the model is told
 def model_targets(spec):
     form, v = spec["form"], spec["v"]
-    if form == "int":
+    if form in ("int", "npint"):
         return [v]
     if form in ("set", "frozenset"):
         return list(set(v))          # the collection the code sees has no duplicates
@@ -391,6 +421,8 @@ def obs_term(o):
 
 
 def query_term(q):
+    if q["f"] == "sp" and q["targets"]["form"] in ("int", "npint"):
+        return "(QPath1 %s %s %s)" % (zlit(q["start"]), "TPy" if q["targets"]["form"] == "int" else "TNp", zlit(q["targets"]["v"]))
     if q["f"] == "sp":
         return "(QPath %s %s)" % (zlit(q["start"]), zlist(model_targets(q["targets"])))
     if q["f"] == "set":
@@ -479,14 +511,18 @@ def oracle_query(case, info, q, o):
     d = bellman_ford(n, edges, w, s)
     if q["f"] == "sp":
         T = sorted(set(model_targets(q["targets"])))
-        if any(t < 0 or t >= n or d[t] is None for t in T):
-            return None                      # not a connected pair: the property says nothing
+        if s < 0 or s >= n or any(t < 0 or t >= n for t in T):
+            return None                      # not vertices: the property says nothing
         if o[0] != "paths":
             return "shortest_path(start=%d, targets=%s, weights=%s) answered %s" % (s, q["targets"], case["mode"], o[:2])
         got = dict((t, p) for t, p in o[1])
         if sorted(got) != T:
             return "returned keys %s, requested targets %s" % (sorted(got), T)
         for t in T:
+            if d[t] is None:                 # not a connected pair: no path, and the other targets keep theirs
+                if got[t] != []:
+                    return "target %d is not connected to %d but got the path %s" % (t, s, got[t])
+                continue
             m = path_problem(info, wmap, s, t, got[t])
             if m:
                 return m
@@ -499,11 +535,11 @@ def oracle_query(case, info, q, o):
     else:
         T = sorted(set(info["border"] or []))
         kind = "shortest_path_to_border"
-    if not T or any(t < 0 or t >= n for t in T):
+    if s < 0 or s >= n or not T or any(t < 0 or t >= n for t in T):
         return None
     R = [t for t in T if d[t] is not None]
-    if len(R) != len(T):
-        return None                          # some member is not connected to the start: unspecified
+    if not R:
+        return None                          # no member is connected to the start: the property says nothing
     best = min(d[t] for t in R)
     if q["f"] == "set":
         if o[0] != "set":
@@ -545,9 +581,25 @@ def judge(case, info, qi):
     return oracle_query(case, info, q, o) or ambient_problem(case, info, qi)
 
 
-def classify(case, q, o):
+def category(msg):
+    """which clause of the property the oracle's sentence is about"""
+    for pat, cat in (("side effect", "side-effect"), ("polyline", "polyline"), ("not a mesh edge", "not-an-edge-path"),
+                     ("does not begin", "wrong-start"), ("does not end", "wrong-end"), ("is not a member", "end-not-in-set"),
+                     ("the minimum is", "not-minimal"), ("nearest member is at", "not-nearest"), ("not connected", "unconnected-target"),
+                     ("returned keys", "wrong-keys"), ("answered", "no-answer")):
+        if pat in (msg or ""):
+            return cat
+    return "other"
+
+
+def classify(case, q, o, msg=None):
+    """failure class = call site / weight mode / target form / export / answer kind (+ exception text) / violated clause /
+    session scenario: specific enough that a recorded finding masks nothing else"""
     scen = ("+ambient" if case.get("ambient") else "") + ("+pre" if case.get("pre") else "")
-    return classify_core(case, q, o) + scen
+    detail = ""
+    if o[0] in ("typeerror", "keyerror", "other", "timeout") and len(o) > 1:
+        detail = ":" + str(o[1])[:48]
+    return "%s/%s%s/%s%s" % (classify_core(case, q, o), q.get("targets", {}).get("form", "-"), detail, category(msg), scen)
 
 
 def classify_core(case, q, o):
@@ -678,12 +730,17 @@ def run(ctx):
     cases = [c for c in corpus if c.get("queries")] + fresh
     infos = run_driver(cases)
     ok_cases, ok_infos = [], []
+    n_generated, n_err, n_empty = len(cases), 0, 0
     for c, inf in zip(cases, infos):
         if "error" in inf:
-            ctx.count("mesh could not be built / driver error: " + (c["build"].get("name") or c["build"]["kind"]))
-            ctx.log("driver error:", inf["error"])
+            n_err += 1
+            ctx.count("DROPPED: mesh could not be built / driver error: " + (c["build"].get("name") or c["build"]["kind"]))
+            if n_err <= 5:
+                ctx.log("driver error:", inf["error"])
             continue
         if not inf["queries"]:
+            n_empty += 1
+            ctx.count("DROPPED: mesh without edges (no query possible)")
             continue
         c["queries"] = inf["queries"]
         c.pop("qseed", None)
@@ -713,6 +770,11 @@ def run(ctx):
                 ctx.count("set query with one target")
             if q["f"] == "set" and q["start"] in q["targets"]["v"]:
                 ctx.count("set query containing the start")
+            if q["f"] in ("sp", "set") and 0 <= q["start"] < inf["n"]:
+                comp = reach(inf["n"], inf["edges"], q["start"])
+                tl = model_targets(q["targets"])
+                if tl and all(0 <= t < inf["n"] for t in tl) and any(t not in comp for t in tl):
+                    ctx.count("%s query with an unconnected target%s" % (q["f"], " among connected ones" if any(t in comp for t in tl) else ""))
             if o[0] == "paths":
                 longest = max([longest] + [len(p) for _, p in o[1]])
             elif o[0] == "set":
@@ -726,8 +788,14 @@ def run(ctx):
                       nontrivial=longest >= 3,
                       sample={"mesh": inf["type"], "n": inf["n"], "edges": inf["edges"][:8], "mode": c["mode"],
                               "query": c["queries"][0], "observed": inf["obs"][0][:3]})
+    # every failing element is classified; the verdict of the oracle obligation is the real one
+    keyed = [(classify(cases[ci], cases[ci]["queries"][qi], infos[ci]["obs"][qi], msg), ci, qi, msg) for ci, qi, msg in fails]
+    unknown = [k for k in keyed if not ctx.known(k[0])]
     ctx.obligation("oracle: every returned path is an edge path start->target of minimum weight (Bellman-Ford), set queries end "
-                   "at a nearest member", "oracle-on-implementation", True, "%d failing queries" % len(fails))
+                   "at a nearest member, unconnected targets get the empty path, other queues are untouched",
+                   "oracle-on-implementation", not unknown,
+                   "%d failing queries (%d in listed known-finding classes); classes: %s"
+                   % (len(fails), len(keyed) - len(unknown), sorted(set(k[0] for k in keyed))[:12]))
 
     bad = []
     # "length" on general coordinates enters the correspondence through WFloat (exact dyadic lengths, answers compared
@@ -738,6 +806,14 @@ def run(ctx):
     ctx.count("of which length mode on general coordinates (tolerance relation)",
               sum(1 for i in cidx if edge_weights(cases[i], infos[i]) is None))
     ctx.count("cases judged by the oracle only", len(cases) - len(cidx))
+    n_timeout = sum(1 for inf in infos for o in inf["obs"] if o[0] == "timeout")
+    dropped = n_err + (len(cases) - len(cidx))
+    harness_ok = ctx.evaluations > 0 and len(cidx) > 0 and dropped <= max(2, 0.03 * n_generated) \
+        and n_empty <= 0.10 * n_generated
+    ctx.obligation("harness: generated cases were evaluated (driver errors, unencodable cases and empty meshes within bounds)",
+                   "harness", harness_ok,
+                   "%d generated, %d evaluated, %d in the Coq batch, %d driver errors, %d without edges, %d query time-outs"
+                   % (n_generated, ctx.evaluations, len(cidx), n_err, n_empty, n_timeout))
     if b["model_ok"]:
         bad = ctx.run_cases("paths", HEADER, [case_term(cases[i], infos[i]) for i in cidx], "check_case",
                             case_type=CASE_TYPE, shard=(12 if quick else 60))
@@ -746,14 +822,19 @@ def run(ctx):
         ctx.obligation("correspondence batches", "correspondence", False, "model does not compile")
 
     reported = set()
-    for ci, qi, msg in fails[:300]:
+    n_shrunk = 0
+    for key, ci, qi, msg in unknown + [k for k in keyed if ctx.known(k[0])]:      # unknown classes first
         c, inf = cases[ci], infos[ci]
-        key = classify(c, c["queries"][qi], inf["obs"][qi])
         if key in reported:
             continue
         reported.add(key)
         if ctx.known(key):
             ctx.report_known(key, ctx.known(key)["what"])
+            continue
+        n_shrunk += 1
+        if n_shrunk > 10:        # further classes are reported unshrunk (bounded run time)
+            ctx.violation("shortest paths: " + msg, {"case": dict(c, queries=[c["queries"][qi]]), "observed": [inf["obs"][qi]],
+                                                     "class": key}, key=key)
             continue
         try:
             small = shrink(c, qi)
